@@ -16,6 +16,8 @@ import sys
 
 HERE = os.path.dirname(os.path.dirname(os.path.abspath(__file__)))
 ROOT = "/var/tmp/aldor-matrix/%d" % os.getpid()      # private to this run: several may be active
+CHECKER = HERE                                       # a full run works from a snapshot of the checks, so that they can be edited meanwhile
+SOURCE = "/repo"                                     # ... and from a snapshot of the analysed sources
 EXCL = ["--exclude=*.o", "--exclude=*.a", "--exclude=*.lo", "--exclude=*.la", "--exclude=.libs", "--exclude=*.ao",
         "--exclude=*.al", "--exclude=*.class", "--exclude=*.jar", "--exclude=*.i", "--exclude=*.s", "--exclude=/aldor/src/aldor",
         "--exclude=/aldor/src/javagen", "--exclude=/aldor/src/test/testall", "--exclude=*.log", "--exclude=*.trs", "--exclude=*.abn", "--exclude=*.fm",
@@ -32,12 +34,12 @@ def one(seed, props):
     shutil.rmtree(wt, ignore_errors=True)
     os.makedirs(os.path.join(wt, "aldor"), exist_ok=True)
     try:
-        subprocess.check_call(["rsync", "-a"] + EXCL + ["/repo/aldor/aldor", os.path.join(wt, "aldor") + "/"])
+        subprocess.check_call(["rsync", "-a"] + EXCL + [SOURCE + "/aldor/aldor", os.path.join(wt, "aldor") + "/"])
         # the two generator tools are executables named like excluded files: copy them explicitly
         tu = os.path.join(wt, "aldor", "aldor", "tools", "unix")
         os.makedirs(tu, exist_ok=True)
         for t in ("msgcat", "zacc"):
-            src = os.path.join("/repo/aldor/aldor/tools/unix", t)
+            src = os.path.join(SOURCE, "aldor/aldor/tools/unix", t)
             if os.path.exists(src):
                 shutil.copy2(src, os.path.join(tu, t))
         p = subprocess.run(["patch", "-p1", "-s", "-d", wt, "-i", patchfile],
@@ -47,8 +49,8 @@ def one(seed, props):
         env = dict(os.environ, ALDOR_REPO=wt, VERIF_NO_EVIDENCE="1", VERIF_SCRATCH=os.path.join(wt, "_scratch"))
         fired = {}
         for pid in props:
-            r = subprocess.run([os.path.join(HERE, "check"), pid, "--tier", "quick", "--no-evidence"],
-                               capture_output=True, text=True, cwd=HERE, env=env)
+            r = subprocess.run([os.path.join(CHECKER, "check"), pid, "--tier", "quick", "--no-evidence"],
+                               capture_output=True, text=True, cwd=CHECKER, env=env)
             if r.returncode != 0:
                 lines = [l for l in r.stdout.splitlines() if l.startswith(("violation:", "ANALYSIS-BROKEN"))]
                 fired[pid] = (r.returncode, lines[:4])
@@ -72,6 +74,21 @@ def main():
     if only_props:
         props = only_props
     os.makedirs(ROOT, exist_ok=True)
+    if allseeds:
+        global CHECKER, SOURCE
+        snap = os.path.join(ROOT, "_repo")
+        os.makedirs(os.path.join(snap, "aldor"), exist_ok=True)
+        subprocess.check_call(["rsync", "-a"] + EXCL + ["/repo/aldor/aldor", os.path.join(snap, "aldor") + "/"])
+        tu = os.path.join(snap, "aldor", "aldor", "tools", "unix")
+        os.makedirs(tu, exist_ok=True)
+        for t in ("msgcat", "zacc"):
+            if os.path.exists(os.path.join("/repo/aldor/aldor/tools/unix", t)):
+                shutil.copy2(os.path.join("/repo/aldor/aldor/tools/unix", t), os.path.join(tu, t))
+        SOURCE = snap
+        CHECKER = os.path.join(ROOT, "_verif")
+        subprocess.check_call(["rsync", "-a", "--exclude=/.git", "--exclude=/seeded", "--exclude=/benign", "--exclude=/replays",
+                               "--exclude=/evidence", "--exclude=/out", "--exclude=__pycache__", HERE + "/", CHECKER + "/"])
+        os.makedirs(os.path.join(CHECKER, "out"), exist_ok=True)
     out = {}
     with cf.ThreadPoolExecutor(jobs) as ex:
         for sid, fired in ex.map(lambda s: one(s, props), seeds):
